@@ -15,6 +15,23 @@ qres <k> r1…rk s1…sk        query answer of the real run and of the run on c
 obs <slot> <value>          every pool member after the step
 crash <signal> | end
 ```
+Histories of the class template `Determinate<PSET>` itself (families `det_cpoly`, `det_grid`) are
+replayed, operation by operation, on the heap machine `PPLV.Value.Cow` that the theorems
+`C13.refcount_exact`, `cow_independent`, `self_assign_harmless`, `refines_value_spec` are about:
+```
+dstep construct h | copy h y | assign h y | destroy h | swap h y | mutate h name | binop h y name
+res <value>                 the point set given to construct / the result of f, g on deep copies
+dq <name> h y <0|1>         definitely_entails, is_definitely_equivalent_to, ==, !=, is_top, is_bottom
+dobs h dead | dobs h <address of the const pointset()> <value>
+dalloc <double or foreign deletes seen by the executable's operator delete>
+dfinal <Rep-sized live blocks> 0 <live blocks> <live blocks before the history>
+```
+Obligations: `det_value` (value seen through a handle = `Cow.value`), `det_liveness`, `det_sharing`
+(the handles are partitioned by representation exactly as in the machine, and a handle changes its
+block exactly when the machine allocates: freed blocks are never reused during a history),
+`det_fault` (no double delete; the machine's fault flag is off), `det_leak` (every block is gone
+when every handle is), `det_query`.
+
 The step is turned into a `PPLV.Value.Spec.Step` (`Spec.init / copy / swap / op / query / recycle`),
 the specification pool is advanced with `Spec.step`, and every observation is compared with the
 pool by the exact judge `valEq` (K1 / K2).  stdout: `ok n` | `skip n why` | `MISMATCH n obligation detail`,
@@ -110,8 +127,22 @@ def nSlots : Nat := 32
 def asPool (a : Array Obs) : Spec.Pool Obs := fun i => a.getD i Obs.unknown
 def tabulate (p : Spec.Pool Obs) : Array Obs := (Array.range nSlots).map p
 
+/-- an operation of the `Determinate` histories waiting for its oracle value -/
+structure DetPending where
+  ln : Nat
+  toks : List String
+  res : Option Obs := none
+  done : Bool := false
+
+/-- number of handle slots of the `Determinate` histories -/
+def nHandles : Nat := 8
+
 structure St where
   tab : Array Obs := Array.replicate nSlots Obs.unknown
+  cow : Cow.State Obs := Cow.State.init Obs nHandles
+  amap : List (Nat × Nat) := []          -- model Rep address ↦ observed address of the point set
+  dpend : Option DetPending := none
+  detName : String := ""
   pend : Option Pending := none
   nOk : Nat := 0
   nBad : Nat := 0
@@ -172,10 +203,112 @@ def obligation (p : Pending) (slot : Nat) : String :=
 
 def short (ts : List String) : String := " ".intercalate (ts.take 60)
 
+/-! ### `Determinate` histories: the journal is replayed on `PPLV.Value.Cow` -/
+
+/-- the machine operation a `dstep` line denotes; the uninterpreted `f`, `g` are the oracle value -/
+def detOp (toks : List String) (res : Option Obs) : Option (Cow.Op Obs) :=
+  match toks, res with
+  | ["construct", h], some r => some (.construct (Lin.tokNat h) r)
+  | ["copy", h, y], _ => some (.copyCtor (Lin.tokNat h) (Lin.tokNat y))
+  | ["assign", h, y], _ => some (.assign (Lin.tokNat h) (Lin.tokNat y))
+  | ["destroy", h], _ => some (.destroy (Lin.tokNat h))
+  | ["swap", h, y], _ => some (.swap (Lin.tokNat h) (Lin.tokNat y))
+  | "mutate" :: h :: _, some r => some (.mutate (Lin.tokNat h) (fun _ => r))
+  | "binop" :: h :: y :: _, some r => some (.binop (Lin.tokNat h) (Lin.tokNat y) (fun _ _ => r))
+  | _, _ => none
+
+def detFinalize : M Unit := do
+  let st ← get
+  match st.dpend with
+  | some p =>
+    if !p.done then
+      match detOp p.toks p.res with
+      | some op => set { st with cow := Cow.step st.cow op, dpend := some { p with done := true }, detName := " ".intercalate p.toks }
+      | none =>
+        set { st with dpend := some { p with done := true } }
+        skip p.ln "parse"
+  | none => pure ()
+
+def b2s (b : Bool) : String := if b then "1" else "0"
+
+def processDet (ln : Nat) (ts : List String) : M Bool := do
+  match ts with
+  | "dstep" :: toks => do
+    detFinalize
+    modify fun s => { s with dpend := some { ln := ln, toks := toks } }
+    return true
+  | "dobs" :: h :: rest => do
+    detFinalize
+    let st ← get
+    let hh := Lin.tokNat h
+    let mv := Cow.value st.cow hh
+    match rest with
+    | ["dead"] =>
+      match mv with
+      | none => ok ln
+      | some _ => bad ln "det_liveness" s!"after {st.detName}: handle {h} is destroyed, the machine still holds a value"
+    | a :: v =>
+      let o := parseObs v
+      let oa := Lin.tokNat a
+      match mv, st.cow.prep hh with
+      | some m, some ma =>
+        if !(obsEq m o) then
+          bad ln "det_value" s!"after {st.detName}: handle {h}: machine {short m.raw} | observed {short v}"
+        else
+          match st.amap.find? (·.1 == ma) with
+          | some (_, oa') =>
+            if oa' == oa then ok ln
+            else bad ln "det_sharing" s!"after {st.detName}: handle {h}: the machine keeps the representation it had (or shares it with another handle), the object moved to another block"
+          | none =>
+            if st.amap.any (·.2 == oa) then
+              bad ln "det_sharing" s!"after {st.detName}: handle {h}: the machine has a fresh / distinct representation, the object shares a block that belongs to another representation"
+            else
+              set { st with amap := (ma, oa) :: st.amap }
+              ok ln
+      | _, _ => bad ln "det_liveness" s!"after {st.detName}: handle {h} is alive, the machine has no object there"
+    | [] => skip ln "parse"
+    return true
+  | ["dalloc", f] => do
+    detFinalize
+    let st ← get
+    if Lin.tokNat f == 0 && !st.cow.fault then ok ln
+    else bad ln "det_fault" s!"after {st.detName}: operator delete saw {f} double/foreign delete(s); machine fault flag {st.cow.fault}"
+    return true
+  | ["dfinal", rl, rb, al, ab] => do
+    detFinalize
+    let st ← get
+    let liveModel := (List.range st.cow.next).filter (fun a => (st.cow.heap a).isSome)
+    if rl != rb then bad ln "det_leak" s!"{rl} Rep-sized blocks alive after every handle was destroyed ({rb} at the start)"
+    else if al != ab then bad ln "det_leak" s!"{al} blocks alive after every handle was destroyed ({ab} at the start)"
+    else if !liveModel.isEmpty then bad ln "det_leak" "the machine still has live representations"
+    else ok ln
+    return true
+  | ["dq", name, h, y, r] => do
+    detFinalize
+    let st ← get
+    let vh := (Cow.value st.cow (Lin.tokNat h)).map (·.v)
+    let vy := (Cow.value st.cow (Lin.tokNat y)).map (·.v)
+    let expect : Option Bool :=
+      match name, vh, vy with
+      | "definitely_entails", some a, some b => valSubset a b
+      | "is_definitely_equivalent_to", some a, some b => some (valEq a b)
+      | "operator==", some a, some b => some (valEq a b)
+      | "operator!=", some a, some b => some (!(valEq a b))
+      | "is_top", some a, _ => valIsUniv a
+      | "is_bottom", some a, _ => valIsEmpty a
+      | _, _, _ => none
+    match expect with
+    | some e => if b2s e == r then ok ln else bad ln "det_query" s!"{name}({h}, {y}) answered {r}, the values dictate {b2s e}"
+    | none => skip ln "query"
+    return true
+  | _ => return false
+
 def processLine (ln : Nat) (line : String) : M Unit := do
   let ts := (line.trimAscii.toString.splitOn " ").filter (· ≠ "")
+  if ← processDet ln ts then return
   match ts with
-  | "hist" :: _ => set { (← get) with tab := Array.replicate nSlots Obs.unknown, pend := none }
+  | "hist" :: _ => set { (← get) with tab := Array.replicate nSlots Obs.unknown, pend := none,
+                                      cow := Cow.State.init Obs nHandles, amap := [], dpend := none, detName := "" }
   | "step" :: kind :: name :: rest => do
     finalize
     let nm := [name]
@@ -198,6 +331,12 @@ def processLine (ln : Nat) (line : String) : M Unit := do
       if r == c then ok ln else bad ln "exc_consistency" s!"step {p.name}: real run {r}, run on copies {c}"
     | none => skip ln "no-step"
   | "res" :: v => do
+    match (← get).dpend with
+    | some dp =>
+      if !dp.done then
+        modify fun s => { s with dpend := some { dp with res := some (parseObs v) } }
+        return
+    | none => pure ()
     match (← get).pend with
     | some p => modify fun s => { s with pend := some { p with res := some (parseObs v) } }
     | none => skip ln "no-step"
@@ -244,7 +383,11 @@ def processLine (ln : Nat) (line : String) : M Unit := do
             bad ln (obligation p sl) s!"step {p.kind} {p.name} dsts={p.dsts} args={p.args} slot {slot}: specification {short cur.raw} | observed {short v}"
     | none => skip ln "no-step"
   | "crash" :: sig => do
-    let nm := match (← get).pend with | some p => p.name | none => "?"
+    let st ← get
+    let nm := match st.pend, st.dpend with
+      | some p, _ => p.name
+      | none, some dp => "Determinate " ++ " ".intercalate dp.toks
+      | none, none => "?"
     bad ln "crash" s!"{" ".intercalate sig} in step {nm}"
   | "end" :: _ => finalize
   | _ => pure ()
